@@ -10,6 +10,7 @@
 (*  "bpe"   : all well-formed merge tables with <= MaxTab entries over NB  *)
 (*            byte slots x all texts up to MaxLen over the slots and one   *)
 (*            whitespace slot (0), with max_vocab_size truncations         *)
+(*  "bpesub": tables made of substrings of one word (see BpeSubCases)      *)
 (***************************************************************************)
 EXTENDS Naturals, Sequences, FiniteSets, SequencesExt, TLC, Json, IOUtils
 CONSTANTS MaxLen, NB, MaxTab, MaxEntry, MaxToks, PadTos
@@ -71,7 +72,18 @@ BpeCasesOf(t, texts) ==
          mv \in {0} \cup {258 + k : k \in 0..Len(t)} \cup LowMv \cup HighMv(t) }
 BpeCases == IF ~Fam("bpe") THEN {} ELSE LET texts == SetToSeq(SeqsOver(0..NB, MaxLen)) IN UNION {BpeCasesOf(t, texts) : t \in Tables}
 
-Cases == TextCases \cup MetaCases \cup VocabCases \cup BpeCases
+\* family "bpesub": for a word w, every well-formed table of up to MaxTab entries whose entries are substrings of w
+\* (consistent merge histories of w and competing ones, e.g. ab, bc, bcd, abcd for abcd), applied to w, to w behind a
+\* whitespace and to ww.  Byte slots 1..5 = a..e (harness byte alphabet "abcde").
+SubStrs(w) == {SubSeq(w, a, b) : a \in 1..Len(w), b \in 1..Len(w)} \ ({<<>>} \cup {<<w[k]>> : k \in 1..Len(w)})
+SubTables(w) == {t \in UNION {[1..k -> SubStrs(w)] : k \in 1..MaxTab} : B!WellFormed(t)}
+SubWords == {<<1, 2, 3, 4>>, <<1, 2, 3, 4, 5>>, <<1, 2, 2, 1, 2>>, <<1, 1, 2, 1, 1>>, <<1, 2, 1, 2, 1>>}
+BpeSubCases == IF ~Fam("bpesub") THEN {} ELSE
+    UNION {{ [kind |-> "bpe", special |-> Sp(<<"<pad>", "<b>">>, "<pad>", <<>>, <<>>), g |-> FALSE, pad_to |-> 0,
+              groups |-> "bytes", agg |-> "mean", unk |-> "<u>", balpha |-> "abcde", tabslots |-> t, max_vocab |-> 0,
+              bslots |-> <<w, <<0>> \o w, w \o w>>] : t \in SubTables(w)} : w \in SubWords}
+
+Cases == TextCases \cup MetaCases \cup VocabCases \cup BpeCases \cup BpeSubCases
 VARIABLE x
 Init == x = 0 /\ ndJsonSerialize(IOEnv.OUT, SetToSeq(Cases))
 Next == UNCHANGED x
